@@ -52,6 +52,7 @@ import copy
 import numbers
 import warnings
 import networkx as nx
+import numpy as np
 
 import strawberryfields.circuitdrawer as sfcd
 from strawberryfields.compilers import Compiler, compiler_db
@@ -72,6 +73,14 @@ __all__ = []
 
 
 ALLOWED_RUN_OPTIONS = ["shots", "crop"]
+
+
+def _param_equal(p1, p2):
+    """Equality of two operation parameters (numbers, symbols, arrays, strings)."""
+    if isinstance(p1, np.ndarray) or isinstance(p2, np.ndarray):
+        p1, p2 = np.asarray(p1), np.asarray(p2)
+        return p1.shape == p2.shape and bool(np.all(p1 == p2))
+    return bool(p1 == p2)
 
 
 class Program:
@@ -231,8 +240,13 @@ class Program:
 
         for self_cmd, prog_cmd in zip(self.circuit, prog.circuit):
             names_eq = self_cmd.op.__class__ == prog_cmd.op.__class__
-            param_eq = all(p1 == p2 for p1, p2 in zip(self_cmd.op.p, prog_cmd.op.p))
-            modes_eq = all(m1 == m2 for m1, m2 in zip(self_cmd.reg, prog_cmd.reg))
+            # (zip would only compare the common prefix; array-valued parameters are compared as a whole)
+            param_eq = len(self_cmd.op.p) == len(prog_cmd.op.p) and all(
+                _param_equal(p1, p2) for p1, p2 in zip(self_cmd.op.p, prog_cmd.op.p)
+            )
+            modes_eq = len(self_cmd.reg) == len(prog_cmd.reg) and all(
+                m1 == m2 for m1, m2 in zip(self_cmd.reg, prog_cmd.reg)
+            )
             dagger_eq = getattr(self_cmd.op, "dagger", False) == getattr(prog_cmd.op, "dagger", False)
 
             if not all((names_eq, param_eq, modes_eq, dagger_eq)):
